@@ -46,6 +46,7 @@ Vals  == 1..NVal
 ASSUME TableShape ==
   /\ Len(Table.cls) = NVal /\ Len(Table.num) = NVal /\ Len(Table.lex) = NVal
   /\ \A v \in Vals : Table.cls[v] \in {"num", "nan", "str"}
+  /\ \A v \in Vals : (Table.cls[v] = "num") = (Table.num[v] > 0)
   /\ \A v, w \in Vals : v # w => Table.lex[v] # Table.lex[w]     \* distinct strings
 
 Cls(v) == Table.cls[v]
